@@ -176,66 +176,6 @@ theorem answer_bundle_ok (c : Cfg) (ts : List TrxView) (nextMid : Nat) (hasLocal
 
 /-! ### count -/
 
-theorem answerOrder_length (ts : List TrxView) (secs : List Media) (used : List Nat) (acc out : List (Nat × Bool))
-    (h : answerOrder ts secs used acc = some out) : out.length = acc.length + secs.length := by
-  induction secs generalizing used acc with
-  | nil => simp [answerOrder] at h; subst h; simp
-  | cons s rest ih =>
-    unfold answerOrder at h
-    dsimp only at h
-    split at h
-    · have := ih _ _ h
-      simp at this ⊢; omega
-    · cases h
-
-theorem findIdxFrom_lt (p : Nat → TrxView → Bool) (ts : List TrxView) (i j : Nat)
-    (h : Answer.findIdxFrom p ts i = some j) : i ≤ j ∧ j < i + ts.length := by
-  induction ts generalizing i with
-  | nil => simp [Answer.findIdxFrom] at h
-  | cons t rest ih =>
-    unfold Answer.findIdxFrom at h
-    split at h
-    · simp at h; subst h; simp
-    · have := ih _ h
-      simp; omega
-
-theorem answerOrder_valid (ts : List TrxView) (secs : List Media) (used : List Nat) (acc out : List (Nat × Bool))
-    (hacc : ∀ p ∈ acc, p.1 < ts.length)
-    (h : answerOrder ts secs used acc = some out) : ∀ p ∈ out, p.1 < ts.length := by
-  induction secs generalizing used acc with
-  | nil => simp [answerOrder] at h; subst h; intro p hp; exact hacc p (List.mem_reverse.mp hp)
-  | cons s rest ih =>
-    unfold answerOrder at h
-    dsimp only at h
-    split at h
-    · rename_i i hi
-      refine ih _ _ ?_ h
-      intro p hp
-      rcases List.mem_cons.mp hp with hp | hp
-      · subst hp
-        dsimp only
-        split at hi
-        · have := findIdxFrom_lt _ _ _ _ hi; omega
-        · have := findIdxFrom_lt _ _ _ _ hi; omega
-      · exact hacc p hp
-    · cases h
-
-theorem buildSections_length (c : Cfg) (ts : List TrxView) (remote : List Media) (hasLocal : Bool)
-    (role : Option Bool) (order : List (Nat × Bool)) (nm : Nat) (acc : List Media)
-    (hv : ∀ p ∈ order, p.1 < ts.length) :
-    (buildSections c ts remote hasLocal role order nm acc).length = acc.length + order.length := by
-  induction order generalizing nm acc with
-  | nil => simp [buildSections]
-  | cons p rest ih =>
-    obtain ⟨i, mux⟩ := p
-    unfold buildSections
-    have hi : i < ts.length := hv (i, mux) (by simp)
-    have hget : ts[i]? = some ts[i] := List.getElem?_eq_getElem hi
-    rw [hget]
-    dsimp only
-    rw [ih _ _ (fun p hp => hv p (by simp [hp]))]
-    simp; omega
-
 /-- **answer_count** — an answer has exactly one section per section of the offer, in the offer's order
 (one `answerSection` per entry of the section → transceiver matching, which has one entry per offered
 section). -/
@@ -243,24 +183,12 @@ theorem answer_count (c : Cfg) (ts : List TrxView) (nextMid : Nat) (hasLocal : B
     (offer : Desc) (a : Answer)
     (h : answer c ts nextMid hasLocal role (some offer) = .ok a) :
     a.sections.length = offer.media.length := by
-  unfold answer at h
-  by_cases hts : ts.isEmpty = true
-  · simp [hts] at h
-  · simp only [hts, Bool.false_eq_true, if_false] at h
-    cases ho : answerOrder ts offer.media [] [] with
-    | none => simp [ho] at h
-    | some order =>
-      simp only [ho] at h
-      injection h with h
-      subst h
-      have hl := answerOrder_length _ _ _ _ _ ho
-      have hv := answerOrder_valid _ _ _ _ _ (by intro p hp; cases hp) ho
-      have hb := buildSections_length c ts offer.media hasLocal role order nextMid [] hv
-      simp only [List.length_nil, Nat.zero_add] at hl hb
-      dsimp only
-      split
-      · simp [hb, hl]
-      · split <;> simp [hb, hl]
+  obtain ⟨order, ho, hsec, _⟩ := answer_sections c ts nextMid hasLocal role offer a h
+  have hl := Answer.answerOrder_length _ _ _ _ _ ho
+  have hv := Answer.answerOrder_valid _ _ _ _ _ (by intro p hp; cases hp) ho
+  have hb := buildList_length c ts offer.media hasLocal role order nextMid hv
+  simp only [List.length_nil, Nat.zero_add] at hl
+  rcases hsec with hs | hs <;> rw [hs] <;> simp [hb, hl]
 
 /-! ### header extensions -/
 
@@ -456,6 +384,152 @@ example :
     ∃ a, answer cfgDefault [trx .audio "0", trx .video "1"] 2 false (some false) (some bundleOffer) = .ok a ∧
       validAnswer bundleOffer a = true ∧ a.group = some "BUNDLE 0 1".toList := by
   refine ⟨_, rfl, by decide, by decide⟩
+
+/-! ### description level: the clauses along the whole answer -/
+
+/-- every section of an answer is an `answerSection` (up to the cleared mid) -/
+theorem answer_section_form (c : Cfg) (ts : List TrxView) (nextMid : Nat) (hasLocal : Bool) (role : Option Bool)
+    (offer : Desc) (a : Answer) (h : answer c ts nextMid hasLocal role (some offer) = .ok a) :
+    ∀ s ∈ a.sections, ∃ t mid mux, s.attrs = (answerSection c t offer.media hasLocal role mid mux).attrs ∧
+      s.dir = (answerSection c t offer.media hasLocal role mid mux).dir ∧ s.kind = t.kind := by
+  obtain ⟨order, _, hsec, _⟩ := answer_sections c ts nextMid hasLocal role offer a h
+  intro s hs
+  rcases hsec with he | he
+  · rw [he] at hs
+    obtain ⟨t, mid, mux, rfl⟩ := buildList_mem _ _ _ _ _ _ _ s hs
+    exact ⟨t, mid, mux, rfl, rfl, rfl⟩
+  · rw [he] at hs
+    obtain ⟨s', hs', rfl⟩ := List.mem_map.mp hs
+    obtain ⟨t, mid, mux, rfl⟩ := buildList_mem _ _ _ _ _ _ _ s' hs'
+    exact ⟨t, mid, mux, rfl, rfl, rfl⟩
+
+/-- **answer_setup_ok_desc** — in every answer the model can produce, every `a=setup` is `active` or
+`passive` (never `actpass`). -/
+theorem answer_setup_ok_desc (c : Cfg) (ts : List TrxView) (nextMid : Nat) (hasLocal : Bool) (role : Option Bool)
+    (offer : Desc) (a : Answer) (h : answer c ts nextMid hasLocal role (some offer) = .ok a) :
+    ∀ s ∈ a.sections, ∀ x ∈ s.attrs, x.key = "setup".toList →
+      x.value = some "active".toList ∨ x.value = some "passive".toList := by
+  intro s hs x hx hk
+  obtain ⟨t, mid, mux, hattrs, _, _⟩ := answer_section_form c ts nextMid hasLocal role offer a h s hs
+  rw [hattrs] at hx
+  exact answer_setup_ok c t offer.media hasLocal role mid mux x hx hk
+
+/-- **answer_mux_ok_desc** — along the whole answer, section by section in the offer's order:
+`a=rtcp-mux` only where the offered section had it. All offers, configurations, states. -/
+theorem answer_mux_ok_desc (c : Cfg) (ts : List TrxView) (nextMid : Nat) (hasLocal : Bool) (role : Option Bool)
+    (offer : Desc) (a : Answer) (h : answer c ts nextMid hasLocal role (some offer) = .ok a) :
+    zipAll secMuxOk offer.media a.sections = true := by
+  obtain ⟨order, ho, hsec, _⟩ := answer_sections c ts nextMid hasLocal role offer a h
+  obtain ⟨tail, ht, hal⟩ := answerOrder_matches ts offer.media [] [] order ho
+  simp only [List.reverse_nil, List.nil_append] at ht
+  subst ht
+  have hv := Answer.answerOrder_valid _ _ _ _ _ (by intro p hp; cases hp) ho
+  have hbl : zipAll secMuxOk offer.media (buildList c ts offer.media hasLocal role order nextMid) = true := by
+    apply zipAll_buildList _ _ _ _ _ secMuxOk _ _ _ hv
+    refine hal.imp ?_
+    intro o p _ _ ⟨hflag, _⟩ t mid _ _
+    unfold secMuxOk
+    cases hp : p.2 with
+    | false =>
+      rw [answer_mux_ok c t offer.media hasLocal role mid]
+      rfl
+    | true =>
+      rw [hp] at hflag
+      have e : hasAttr o "rtcp-mux" = true := hflag.symm
+      rw [e, Bool.or_true]
+  rcases hsec with he | he
+  · rw [he]; exact hbl
+  · rw [he, zipAll_map_right secMuxOk (fun s => { s with mid := [] }) (fun o s => rfl)]; exact hbl
+
+/-- every transceiver that an offered section can be matched to has been given that section's direction
+(what `set_remote_description(offer)` establishes for offers whose sections carry distinct mids) -/
+def DirSynced (ts : List TrxView) (offer : Desc) : Prop :=
+  ∀ t ∈ ts, ∀ o ∈ offer.media, Matches o t → t.dir = o.dir
+
+/-- … and is of that section's kind -/
+def KindSynced (ts : List TrxView) (offer : Desc) : Prop :=
+  ∀ t ∈ ts, ∀ o ∈ offer.media, Matches o t → t.kind = o.kind
+
+theorem mem_of_getElem? {α : Type} {l : List α} {i : Nat} {x : α} (h : l[i]? = some x) : x ∈ l := by
+  obtain ⟨hi, rfl⟩ := List.getElem?_eq_some_iff.mp h
+  exact List.getElem_mem hi
+
+/-- **answer_direction_ok_desc** — along the whole answer: every answered direction is compatible with
+the offered one, when the matched transceivers carry the offered directions (`DirSynced`). -/
+theorem answer_direction_ok_desc (c : Cfg) (ts : List TrxView) (nextMid : Nat) (hasLocal : Bool) (role : Option Bool)
+    (offer : Desc) (a : Answer) (h : answer c ts nextMid hasLocal role (some offer) = .ok a)
+    (hd : DirSynced ts offer) :
+    zipAll secDirOk offer.media a.sections = true := by
+  obtain ⟨order, ho, hsec, _⟩ := answer_sections c ts nextMid hasLocal role offer a h
+  obtain ⟨tail, ht, hal⟩ := answerOrder_matches ts offer.media [] [] order ho
+  simp only [List.reverse_nil, List.nil_append] at ht
+  subst ht
+  have hv := Answer.answerOrder_valid _ _ _ _ _ (by intro p hp; cases hp) ho
+  have hbl : zipAll secDirOk offer.media (buildList c ts offer.media hasLocal role order nextMid) = true := by
+    apply zipAll_buildList _ _ _ _ _ secDirOk _ _ _ hv
+    refine hal.imp ?_
+    intro o p ho' _ ⟨_, t', hget', hm⟩ t mid hget _
+    rw [hget'] at hget; injection hget with e; subst e
+    have hdir := hd t' (mem_of_getElem? hget') o ho' hm
+    unfold secDirOk
+    simp only [answerSection]
+    rw [← hdir]
+    exact answer_direction_ok t' offer.media mid
+  rcases hsec with he | he
+  · rw [he]; exact hbl
+  · rw [he, zipAll_map_right secDirOk (fun s => { s with mid := [] }) (fun o s => rfl)]; exact hbl
+
+/-- **answer_aligned_partial** — kinds and mids of the answer are the offer's, section by section, when
+every offered section carries a mid, matched transceivers are of the offered kind (`KindSynced`) and
+the mids are not cleared (Standard mode and: BUNDLE offered or a single section). The two excluded
+situations are exactly the witnesses `answer_clears_mids_without_bundle` /
+`legacy_sip_answer_drops_offered_mids`. -/
+theorem answer_aligned_partial (c : Cfg) (ts : List TrxView) (nextMid : Nat) (hasLocal : Bool) (role : Option Bool)
+    (offer : Desc) (a : Answer) (h : answer c ts nextMid hasLocal role (some offer) = .ok a)
+    (hmids : ∀ o ∈ offer.media, o.mid ≠ []) (hk : KindSynced ts offer)
+    (hnc : c.legacySip = false ∧ (offeredBundle offer.session.attrs = true ∨ offer.media.length ≤ 1)) :
+    zipAll secAligned offer.media a.sections = true := by
+  obtain ⟨order, ho, _, hkeep⟩ := answer_sections c ts nextMid hasLocal role offer a h
+  obtain ⟨tail, ht, hal⟩ := answerOrder_matches ts offer.media [] [] order ho
+  simp only [List.reverse_nil, List.nil_append] at ht
+  subst ht
+  have hv := Answer.answerOrder_valid _ _ _ _ _ (by intro p hp; cases hp) ho
+  rw [hkeep hnc]
+  apply zipAll_buildList _ _ _ _ _ secAligned _ _ _ hv
+  refine hal.imp ?_
+  intro o p ho' _ ⟨_, t', hget', hm⟩ t mid hget hmid
+  rw [hget'] at hget; injection hget with e; subst e
+  have hkind := hk t' (mem_of_getElem? hget') o ho' hm
+  have hmid' : mid = o.mid := by
+    rcases hm with ⟨_, htm⟩ | ⟨hem, _⟩
+    · exact hmid _ htm
+    · exact absurd hem (hmids o ho')
+  unfold secAligned
+  simp [answerSection, hkind, hmid']
+
+/-- **answer_valid_core_partial** — the clauses of `validAnswer` that do not concern codecs / RTX /
+extension ids, together, under the named hypotheses: count, kinds, mids, rtcp-mux, direction. -/
+theorem answer_valid_core_partial (c : Cfg) (ts : List TrxView) (nextMid : Nat) (hasLocal : Bool) (role : Option Bool)
+    (offer : Desc) (a : Answer) (h : answer c ts nextMid hasLocal role (some offer) = .ok a)
+    (hmids : ∀ o ∈ offer.media, o.mid ≠ []) (hk : KindSynced ts offer) (hd : DirSynced ts offer)
+    (hnc : c.legacySip = false ∧ (offeredBundle offer.session.attrs = true ∨ offer.media.length ≤ 1)) :
+    a.sections.length = offer.media.length ∧ zipAll secAligned offer.media a.sections = true ∧
+    zipAll secMuxOk offer.media a.sections = true ∧ zipAll secDirOk offer.media a.sections = true :=
+  ⟨answer_count c ts nextMid hasLocal role offer a h,
+   answer_aligned_partial c ts nextMid hasLocal role offer a h hmids hk hnc,
+   answer_mux_ok_desc c ts nextMid hasLocal role offer a h,
+   answer_direction_ok_desc c ts nextMid hasLocal role offer a h hd⟩
+
+/-- the hypotheses are satisfiable by a non-trivial instance (the BUNDLE offer of the example below) -/
+example : KindSynced [trx .audio "0", trx .video "1"] bundleOffer ∧ DirSynced [trx .audio "0", trx .video "1"] bundleOffer ∧
+    (∀ o ∈ bundleOffer.media, o.mid ≠ []) ∧ offeredBundle bundleOffer.session.attrs = true := by
+  refine ⟨?_, ?_, by decide, by decide⟩
+  · intro t ht o ho hm
+    simp only [bundleOffer, mkOffer, List.mem_cons, List.mem_nil_iff, or_false] at ht ho
+    rcases ht with rfl | rfl <;> rcases ho with rfl | rfl <;> first | rfl | (exfalso; revert hm; unfold Matches; decide)
+  · intro t ht o ho hm
+    simp only [bundleOffer, mkOffer, List.mem_cons, List.mem_nil_iff, or_false] at ht ho
+    rcases ht with rfl | rfl <;> rcases ho with rfl | rfl <;> rfl
 
 /-! ### SDP text -/
 
